@@ -187,8 +187,11 @@ func (o *objectGoReflect) init() {
 		o.methodsValue = o.fieldsValue
 	}
 
-	if j, ok := o.origValue.Interface().(JsonEncodable); ok {
-		o.toJson = j.JsonEncodable
+	if _, ok := o.origValue.Interface().(JsonEncodable); ok {
+		// look the value up at call time: origValue may be an addressable copy that is modified later
+		o.toJson = func() interface{} {
+			return o.origValue.Interface().(JsonEncodable).JsonEncodable()
+		}
 	}
 }
 
